@@ -8,7 +8,6 @@ import (
 	"sort"
 	"strings"
 
-
 	"kverif/cal"
 	"kverif/core"
 	"kverif/gen"
@@ -498,7 +497,6 @@ func (k *c12) RunCase(c *core.Ctx, i int) {
 		}
 	}
 }
-
 
 // ---------------------------------------------------------------- CLI
 
